@@ -141,7 +141,14 @@ impl<'de> serde::Deserializer<'de> for ValueDeserializer {
                 _ => None,
             });
             if let Some(span) = span {
-                return visitor.visit_map(super::SpannedDeserializer::new(self, span));
+                return visitor
+                    .visit_map(super::SpannedDeserializer::new(self, span.clone()))
+                    .map_err(|mut e: Self::Error| {
+                        if e.span().is_none() {
+                            e.set_span(Some(span));
+                        }
+                        e
+                    });
             }
         }
 
